@@ -159,7 +159,10 @@ def check(ctx):
              # that keeps the neighbouring words apart
              "`define KEEP_\nmodule m; reg`KEEP_\u00a7r; wire`KEEP_\u00a7w; endmodule\n",
              "`define F_(x)\n`define V_ 3\nmodule m; reg`F_(1)\u00a7q; wire [`V_\u00a7:0] v; endmodule\n",
-             "`define E_\nmodule m; initial begin`E_\u00a7x = 1; end`E_\u00a7endmodule\n"]
+             "`define E_\nmodule m; initial begin`E_\u00a7x = 1; end`E_\u00a7endmodule\n",
+             # directives that stand as descriptions of their own between design units: the trivia behind them
+             "module a; endmodule\n`resetall\u00a7module b; endmodule\n`resetall\u00a7",
+             "`timescale 1ns/1ps\u00a7module a; endmodule\n`default_nettype none\u00a7module b; endmodule\n`celldefine\u00a7module c; endmodule `endcelldefine\u00a7"]
     tref = [Case("tr%d" % i).add("want", "tree", "text").add("run", "preprocess_str", hx(t.replace("\u00a7", " ")), hx("t.sv"))
             .add("run", "parse_sv_str", hx(t.replace("\u00a7", " ")), hx("t.sv")) for i, t in enumerate(TEMPL)]
     timpl = run_harness("api", tref, "c12t", timeout=600)
